@@ -9,6 +9,8 @@ tvars == <<vars, ret, l, tainted>>
 
 NameOfAll == [x \in {"c1", "c2", "c3", "v1", "v2", "v3", "u1", "u2", "u3"} |-> IF x \in {"c3", "v3", "u3"} THEN "b" ELSE "a"]
 
+NameOfWide == [x \in {"c1", "c2", "c3", "v1", "v2", "v3", "v4", "u1", "u2", "u3"} |-> IF x \in {"c3", "v3", "u3"} THEN "b" ELSE "a"]
+
 TInit == Init /\ l = 1 /\ tainted = FALSE
 
 Ev == TraceLog[l]
